@@ -184,7 +184,16 @@ def gen_env(rng, batch, nprocs, same_seed=False):
             env["dirty"] = {"kind": rng.choice(["longer", "shorter", "other_program", "garbage"]), "fill": rng.hexbytes(8)}
         if rng.chance(1, 3):
             env["torn"] = {"kth_write": rng.range(1, 4)}
+    # how the user spells the entry file on the command line (the same spelling in every process of the case)
+    env["spell"] = rng.weighted([("", 6), ("./", 2), (".//", 1), ("././", 1), ("abs", 1)])
     return env
+
+
+def spelled(env, cwd, ent):
+    sp = env.get("spell") or ""
+    if sp == "abs":
+        return os.path.join(cwd, ent)
+    return sp + ent
 
 
 OTHER_PROGRAM = ('f other\x00\x07 "stale artefact of another program"\x00\x12 "*"\x00\x0f\x00\x11\x00e\x00'
@@ -222,6 +231,7 @@ def leg_run(files, entry, env, idx, dump=False):
     world = core.fresh_world(files, sub="run")
     place_dirty(world, env, module_artefacts(files, entry))
     cwd, ent = os.path.join(world, os.path.dirname(entry)), os.path.basename(entry)
+    ent = spelled(env, cwd, ent)
     p = core.run_cmd(cwd, ["run", ent, "-q"], plan=env["plans"][idx], gc=env["gc"][idx], dump=dump)
     return [p]
 
@@ -230,6 +240,7 @@ def leg_compile_execute(files, entry, env, idx, dump=False):
     world = core.fresh_world(files, sub="ce")
     place_dirty(world, env, module_artefacts(files, entry))
     cwd, ent = os.path.join(world, os.path.dirname(entry)), os.path.basename(entry)
+    ent = spelled(env, cwd, ent)
     procs = []
     if env.get("torn"):
         # an earlier compile of the same project really killed at its k-th bytecode write
@@ -251,12 +262,13 @@ def leg_transpile_execute(files, entry, env, idx, dump=False, shortcut=False):
     world = core.fresh_world(files, sub="tx")
     cwd, ent = os.path.join(world, os.path.dirname(entry)), os.path.basename(entry)
     stem = ent[:-3]
+    sstem = spelled(env, cwd, ent)[:-3]
     if env.get("dirty"):
         for rel in (stem + ".mmm", stem + ".transpiled.mmm"):
             with open(os.path.join(cwd, rel), "wb") as f:
                 f.write(dirty_bytes(env["dirty"]["kind"], env["dirty"]["fill"], 400))
     procs = []
-    c = core.run_cmd(cwd, ["compile", ent, "--output-format", "raw-text", "--quick"], plan=env["plans"][idx])
+    c = core.run_cmd(cwd, ["compile", sstem + ".ms", "--output-format", "raw-text", "--quick"], plan=env["plans"][idx])
     procs.append(c)
     if c["rc"] != 0:
         return procs, None
@@ -268,14 +280,14 @@ def leg_transpile_execute(files, entry, env, idx, dump=False, shortcut=False):
         with open(os.path.join(cwd, stem + ".mmm"), "wb") as f:
             f.write(dirty_bytes(env["dirty"]["kind"], env["dirty"]["fill"], len(text_form)))
     if shortcut:
-        e = core.run_cmd(cwd, ["execute", stem + ".transpiled.mmm", "--transpile"], plan=env["plans"][idx + 1],
+        e = core.run_cmd(cwd, ["execute", sstem + ".transpiled.mmm", "--transpile"], plan=env["plans"][idx + 1],
                          gc=env["gc"][idx + 1], dump=dump)
         procs.append(e)
         return procs, text_form
-    t = core.run_cmd(cwd, ["transpile", stem + ".transpiled.mmm"], plan=env["plans"][idx + 1])
+    t = core.run_cmd(cwd, ["transpile", sstem + ".transpiled.mmm"], plan=env["plans"][idx + 1])
     procs.append(t)
     if t["rc"] == 0:
-        e = core.run_cmd(cwd, ["execute", stem + ".mmm"], plan=env["plans"][idx + 2], gc=env["gc"][idx + 2], dump=dump)
+        e = core.run_cmd(cwd, ["execute", sstem + ".mmm"], plan=env["plans"][idx + 2], gc=env["gc"][idx + 2], dump=dump)
         procs.append(e)
     return procs, text_form
 
@@ -321,6 +333,10 @@ def shrink_env(case):
             c = copy.deepcopy(case)
             c["env"]["gc"][i] = None
             yield c
+    if env.get("spell"):
+        c = copy.deepcopy(case)
+        c["env"]["spell"] = ""
+        yield c
     for key in ("dirty", "torn"):
         if env.get(key):
             c = copy.deepcopy(case)
